@@ -12,7 +12,8 @@ Usage: tools_seed_eval.py <ID-n> [<ID-n> ...] [--checks C01,C09] [--skip-confirm
 """
 import json, os, shutil, subprocess, sys, time
 
-ENV = dict(os.environ, CARGO_NET_OFFLINE="true")
+os.makedirs("/tmp/eval-tmp", exist_ok=True)
+ENV = dict(os.environ, CARGO_NET_OFFLINE="true", TMPDIR="/tmp/eval-tmp")
 OUT = "/tmp/seeded-out"
 EVAL = "/tmp/eval"
 
@@ -80,6 +81,7 @@ def evaluate(sid, checks):
     for c in checks:
         t = time.time()
         env = dict(ENV, VERIF_ROOT=f"{EVAL}/root")
+        env.pop("TMPDIR", None)
         p = subprocess.run(f"./target/release/flute-sim check {c} quick --no-evidence", shell=True, cwd=f"{EVAL}/sim", env=env, capture_output=True, text=True, timeout=3600)
         lines = [l for l in p.stdout.splitlines() if l.startswith("  rule=")]
         out[c] = {"exit": p.returncode, "wall_s": round(time.time() - t, 1), "rules": [l.strip()[:260] for l in lines[:4]]}
@@ -117,6 +119,18 @@ def main():
                 "quick_checks": res["checks"],
                 "caught_by": res["caught_by"],
             }
+            try:
+                S = json.load(open("/verif/seeded/SUMMARIES.json"))
+                if sid in S:
+                    meta["summary"], meta["needs"] = S[sid]
+                    meta["needs_to_manifest"] = meta["needs"]
+            except Exception:
+                pass
+            if os.path.exists(f"{dst}/meta.json") and skip:
+                old = json.load(open(f"{dst}/meta.json"))
+                old["quick_checks"].update(meta["quick_checks"])
+                old["caught_by"] = sorted(set(old.get("caught_by", [])) | set(meta["caught_by"]))
+                meta = dict(old, confirmed_at_repo_commit=old.get("confirmed_at_repo_commit"))
             json.dump(meta, open(f"{dst}/meta.json", "w"), indent=1)
         print(json.dumps(res))
         with open(f"{OUT}/RESULTS.jsonl", "a") as f:
